@@ -235,6 +235,11 @@ def continuous_from_codes(rng, codes, k, integer=True):
     return y, [float(v) for v in levels]
 
 
+def target_scale(rng):
+    """continuous targets of ordinary, tiny and large magnitude (powers of two: ties and order are preserved exactly)"""
+    return pick(rng, [1.0, 1.0, 1.0, 2.0 ** -17, 2.0 ** 13])
+
+
 def multiclass_from_codes(rng, codes, k, n_classes, labels="int"):
     n = len(codes)
     y = np.zeros(n, int)
@@ -434,6 +439,8 @@ def single_feature_case(rng, ftype=None, kind=None, n=None, exact=True, with_dev
         y, levels = binary_from_codes(rng, lat, k, exact=exact)
     else:
         y, levels = continuous_from_codes(rng, lat, k, integer=exact)
+        c.meta["target_scale"] = target_scale(rng)
+        y = y * c.meta["target_scale"]
     c.y = pd.Series(y)
     idx = index_for(rng, n)
     c.X.index = idx
@@ -473,7 +480,7 @@ def make_dev(rng, c, lat, k, levels, mode=None):
                 yy = np.zeros(m, int)
                 yy[: int(round(lvl * m))] = 1
             else:
-                yy = np.tile(np.arange(5), m // 5 + 1)[:m] + float(lvl)
+                yy = (np.tile(np.arange(5), m // 5 + 1)[:m] + float(lvl)) * c.meta.get("target_scale", 1.0)
             ys.append(yy)
         take = np.concatenate(rows)
         yd = np.concatenate(ys)
@@ -511,6 +518,7 @@ def make_dev(rng, c, lat, k, levels, mode=None):
                     yd[idx] = rng.integers(0, 5, len(idx)) + lv[cd if cd >= 0 else k]
                 if len(np.unique(yd)) < 3:
                     yd[:3] = [yd.min() - 1, yd.max() + 1, yd.max() + 2]
+                yd = yd * c.meta.get("target_scale", 1.0)
         if mode == "missing_mod":
             present = [cd for cd in range(k) if (latd == cd).any()]
             if len(present) > 2:
@@ -541,9 +549,13 @@ def multi_feature_case(rng, kind=None, n=None, n_feat=None, hostile=False, degen
     cols = {}
     score = np.zeros(n)
     metas = {}
+    prev_name = None
     for j in range(n_feat):
         ftype = pick(rng, ["quant", "quant", "cat", "ord"])
         name = f"{ftype[0]}{j}"
+        if prev_name is not None and rng.random() < 0.25:
+            name = prev_name + pick(rng, ["_b", "0", "_zone"])  # a name containing another feature's name
+        prev_name = name
         if ftype == "quant":
             pool = QUANT_FLAVOURS + (QUANT_DEGENERATE if degenerate else [])
             flav = pick(rng, pool)
@@ -571,6 +583,15 @@ def multi_feature_case(rng, kind=None, n=None, n_feat=None, hostile=False, degen
                 c.ordinal.append(name)
             else:
                 c.qual.append(name)
+                nonnan = [v for v in vals if not (isinstance(v, float) and v != v)]
+                if len(nonnan) == len(vals) and rng.random() < 0.6:
+                    # numeric categories held in a true numpy dtype (numpy scalars, not python numbers)
+                    if all(isinstance(v, int) for v in nonnan):
+                        vals = np.array(vals, dtype=np.int64)
+                        meta["np_dtype"] = "int64"
+                    elif all(isinstance(v, float) for v in nonnan):
+                        vals = np.array(vals, dtype=pick(rng, [np.float64, np.float32]))
+                        meta["np_dtype"] = str(vals.dtype)
             cols[name] = vals
             metas[name] = meta
     # a non-feature column that must never be touched
@@ -587,6 +608,8 @@ def multi_feature_case(rng, kind=None, n=None, n_feat=None, hostile=False, degen
         y = np.round(s * 3) if rng.random() < 0.5 else s
         if len(np.unique(y)) < 3:
             y = s
+        c.meta["target_scale"] = target_scale(rng)
+        y = y * c.meta["target_scale"]
     else:
         n_classes = n_classes or int(rng.integers(3, 6))
         qs = np.quantile(s, np.linspace(0, 1, n_classes + 1)[1:-1])
